@@ -36,6 +36,14 @@ def sample_of(spec, lines, nsteps=6):
     }
 
 
+def _rename_chain(b, n=3):
+    """at least n generations that each seal a fresh rename (rename directly followed by create)"""
+    return sum(1 for i in range(1, len(b)) if b[i]["op"] == "create" and b[i - 1]["op"] == "rename") >= n
+
+
+SELECT = {"rename_chain3": _rename_chain}
+
+
 def history_campaign(out, pid, plans, pclauses, antecedent, seed, mclauses=None, line_filter=None):
     """Run the plans; fill out (Outcome). Each plan: dict(scope, mode, maxops, num, depth, mc(bool), invariants, props,
     variants)."""
@@ -49,7 +57,7 @@ def history_campaign(out, pid, plans, pclauses, antecedent, seed, mclauses=None,
         scope = plan["scope"]
         if plan.get("mc", True):
             r = C.model_check(scope, invariants=plan.get("invariants"), props=plan.get("props", ()), maxgens=plan.get("mc_maxgens"),
-                              simulate=plan.get("mc_simulate"), depth=plan.get("mc_depth", 14), seed=seed, timeout=plan.get("mc_timeout", 1500))
+                              simulate=plan.get("mc_simulate"), depth=plan.get("mc_depth", 14), seed=seed, timeout=plan.get("mc_timeout", 900))
             out.add_model(r, "MhlHistoryMC/%s%s" % (scope, " (random walks)" if plan.get("mc_simulate") else ""))
         if plan.get("behaviours") is not None:
             behs = plan["behaviours"]
@@ -57,6 +65,11 @@ def history_campaign(out, pid, plans, pclauses, antecedent, seed, mclauses=None,
             behs, er = C.export(scope, mode=plan.get("mode", "exhaustive"), num=plan.get("num", 1000), depth=plan.get("depth"),
                                 seed=seed + plan.get("seed_offset", 0), maxops=plan.get("maxops"), maxgens=plan.get("maxgens"))
             out.coverage.setdefault("export_runs", []).append({"scope": scope, "mode": plan.get("mode", "exhaustive"), "behaviours": len(behs), "tlc_states": er.states})
+        if plan.get("select"):
+            # a named subset of the exported behaviours (the export itself stays exhaustive within its bounds)
+            n0 = len(behs)
+            behs = [b for b in behs if SELECT[plan["select"]](b)]
+            out.coverage["export_runs"][-1]["selected"] = {"rule": plan["select"], "kept": len(behs), "of": n0}
         if plan.get("limit") and len(behs) > plan["limit"]:
             import random
 
@@ -312,7 +325,7 @@ generic(
         dict(scope="ign", mode="simulate", num=40, depth=7, limit=300, mc=False),
         dict(scope="deep", mode="simulate", num=30, depth=8, maxops=12, maxgens=30, limit=300, mc=False),
     ],
-    thorough=[dict(scope="all", mode="simulate", num=20, depth=12, maxops=14, maxgens=60, limit=2500, mc=True, mc_simulate=100000, mc_timeout=600, mc_depth=16, mc_maxgens=60, invariants=INV_C02),
+    thorough=[dict(scope="all", mode="simulate", num=20, depth=12, maxops=14, maxgens=60, limit=2500, mc=True, mc_simulate=100000, mc_timeout=300, mc_depth=16, mc_maxgens=60, invariants=INV_C02),
              
         dict(scope="deep", mode="simulate", num=300, depth=10, maxops=14, maxgens=40, limit=3000, mc=False),
         dict(scope="tree", mode="simulate", num=400, depth=10, mc_maxgens=2, invariants=INV_C02),
@@ -335,7 +348,7 @@ generic(
         dict(scope="deep", mode="simulate", num=30, depth=8, maxops=12, maxgens=30, limit=400, mc=False),
         dict(scope="tiny", mode="exhaustive", maxops=4, limit=800, mc_maxgens=2, invariants=INV_C03),
     ],
-    thorough=[dict(scope="all", mode="simulate", num=20, depth=12, maxops=14, maxgens=60, limit=2500, mc=True, mc_simulate=100000, mc_timeout=600, mc_depth=16, mc_maxgens=60, invariants=INV_C03),
+    thorough=[dict(scope="all", mode="simulate", num=20, depth=12, maxops=14, maxgens=60, limit=2500, mc=True, mc_simulate=100000, mc_timeout=300, mc_depth=16, mc_maxgens=60, invariants=INV_C03),
              
         dict(scope="deep", mode="simulate", num=300, depth=10, maxops=14, maxgens=40, limit=4000, mc=False),
         dict(scope="tiny", mode="exhaustive", maxops=5, mc_maxgens=2, invariants=INV_C03),
@@ -357,7 +370,7 @@ generic(
         dict(scope="deep", mode="simulate", num=30, depth=8, maxops=12, maxgens=30, limit=400, mc=False),
         dict(scope="nest2f", mode="simulate", num=30, depth=8, limit=400, mc_maxgens=2, invariants=INV_C08),
     ],
-    thorough=[dict(scope="all", mode="simulate", num=20, depth=12, maxops=14, maxgens=60, limit=2500, mc=True, mc_simulate=100000, mc_timeout=600, mc_depth=16, mc_maxgens=60, invariants=INV_C08),
+    thorough=[dict(scope="all", mode="simulate", num=20, depth=12, maxops=14, maxgens=60, limit=2500, mc=True, mc_simulate=100000, mc_timeout=300, mc_depth=16, mc_maxgens=60, invariants=INV_C08),
              
         dict(scope="nest", mode="simulate", num=800, depth=11, mc_maxgens=3, invariants=INV_C08),
         dict(scope="deep", mode="simulate", num=300, depth=10, maxops=14, maxgens=40, limit=5000, mc_maxgens=12, invariants=INV_C08),
@@ -376,11 +389,13 @@ generic(
     quick=[
         dict(scope="ign", mode="simulate", num=120, depth=8, limit=800, mc_maxgens=1, invariants=INV_C12, variants=[{"names": "plain"}, {"names": "mixed", "augment": True}]),
         dict(scope="igndh", mode="simulate", num=80, depth=8, limit=900, mc_maxgens=1, invariants=INV_C12 + ["Inv_C09_Identical"], variants=[{"names": "plain", "augment": True}, {"names": "space"}]),
+        dict(scope="ignsf", mode="simulate", num=60, depth=8, limit=600, mc_maxgens=2, invariants=INV_C12),
     ],
-    thorough=[dict(scope="all", mode="simulate", num=20, depth=12, maxops=14, maxgens=60, limit=2500, mc=True, mc_simulate=100000, mc_timeout=600, mc_depth=16, mc_maxgens=60, invariants=INV_C12),
+    thorough=[dict(scope="all", mode="simulate", num=20, depth=12, maxops=14, maxgens=60, limit=2500, mc=True, mc_simulate=100000, mc_timeout=300, mc_depth=16, mc_maxgens=60, invariants=INV_C12),
              
         dict(scope="ign", mode="simulate", num=1200, depth=10, mc_maxgens=2, invariants=INV_C12, variants=[{"names": "plain"}, {"names": "mixed", "augment": True}]),
         dict(scope="igndh", mode="simulate", num=600, depth=10, limit=5000, mc_maxgens=2, invariants=INV_C12 + ["Inv_C09_Identical"], variants=[{"names": "plain", "augment": True}, {"names": "space"}]),
+        dict(scope="ignsf", mode="simulate", num=600, depth=10, limit=6000, mc_maxgens=3, invariants=INV_C12),
     ],
     pclauses=["P_C12_Excluded", "P_C12_Accumulate", "P_C03_Quiet", "P_C07_Recorded", "P_C02_RecordSet", "P_C09_Identical", "P_C03_NoFalseAlarm"],
     antecedent=lambda ln, v: bool(v.get("A_ign")),
@@ -388,21 +403,22 @@ generic(
 )
 
 
-INV_C14 = ["Inv_C14_Frame", "Inv_C06_AppendOnly", "Inv_NoInternal"]
+INV_C14 = ["Inv_C14_Frame", "Inv_C14_Scope", "Inv_C06_AppendOnly", "Inv_NoInternal"]
 generic(
     "C14", "model_checking",
     quick=[
         dict(scope="cmds", mode="simulate", num=60, depth=10, limit=600, mc_maxgens=1, invariants=INV_C14, variants=[{"names": "plain"}, {"names": "mixed", "flatrel": True}, {"names": "xml", "spelling": "rel"}]),
-        dict(scope="nest", mode="simulate", num=40, depth=8, limit=300, mc=False),
+        dict(scope="nest", mode="simulate", num=60, depth=8, limit=600, mc=False,
+             variants=[{"names": "prefix"}, {"names": "plain", "sfspell": "dotseg"}, {"names": "mixed", "spelling": "slash", "sfspell": "rel"}]),
     ],
-    thorough=[dict(scope="all", mode="simulate", num=20, depth=12, maxops=14, maxgens=60, limit=2500, mc=True, mc_simulate=100000, mc_timeout=600, mc_depth=16, mc_maxgens=60, invariants=INV_C14),
+    thorough=[dict(scope="all", mode="simulate", num=20, depth=12, maxops=14, maxgens=60, limit=2500, mc=True, mc_simulate=100000, mc_timeout=300, mc_depth=16, mc_maxgens=60, invariants=INV_C14),
              
         dict(scope="cmds", mode="simulate", num=600, depth=12, mc_maxgens=2, invariants=INV_C14),
         dict(scope="nest", mode="simulate", num=300, depth=10, mc=False),
         dict(scope="ign", mode="simulate", num=200, depth=8, mc=False),
         dict(scope="ren", mode="simulate", num=100, depth=9, mc=False),
     ],
-    pclauses=["P_C14_Frame", "P_C14_DiskSame"],
+    pclauses=["P_C14_Frame", "P_C14_Scope", "P_C14_DiskSame"],
     antecedent=lambda ln, v: True,
     antecedent_text="every executed command (read-only commands must leave an empty delta and issue no mutating call; create may add only manifests / chain files / ascmhl folders of the histories it writes)",
 )
@@ -432,9 +448,11 @@ generic(
 INV_C09 = ["Inv_C09_Identical", "Inv_C09_Detects", "Inv_NoInternal", "Inv_C14_Frame"]
 generic(
     "C09", "model_checking",
-    quick=[dict(scope="dh", mode="simulate", num=80, depth=9, limit=1200, mc_maxgens=1, invariants=INV_C09)],
-    thorough=[dict(scope="all", mode="simulate", num=20, depth=12, maxops=14, maxgens=60, limit=2500, mc=True, mc_simulate=100000, mc_timeout=600, mc_depth=16, mc_maxgens=60, invariants=INV_C09),
+    quick=[dict(scope="dh", mode="simulate", num=80, depth=9, limit=1200, mc_maxgens=1, invariants=INV_C09),
+           dict(scope="dhopt", mode="simulate", num=40, depth=9, limit=700, mc_maxgens=2, mc_simulate=100000, mc_timeout=45, mc_depth=12, invariants=INV_C09)],
+    thorough=[dict(scope="all", mode="simulate", num=20, depth=12, maxops=14, maxgens=60, limit=2500, mc=True, mc_simulate=100000, mc_timeout=300, mc_depth=16, mc_maxgens=60, invariants=INV_C09),
              dict(scope="dh", mode="simulate", num=1500, depth=11, mc_maxgens=2, invariants=INV_C09),
+             dict(scope="dhopt", mode="simulate", num=400, depth=10, limit=8000, mc_maxgens=2, invariants=INV_C09),
               dict(scope="dh6", mode="simulate", num=300, depth=10, mc=False)],
     pclauses=["P_C09_Identical", "P_C09_Detects", "P_C09_NoInternal"],
     antecedent=lambda ln, v: ln["op"]["op"] == "verifydh" and bool(v.get("A_dh")),
@@ -443,8 +461,10 @@ generic(
 
 generic(
     "C07", "model_checking",
-    quick=[dict(scope="dh6", mode="simulate", num=60, depth=10, limit=900, mc=False)],
+    quick=[dict(scope="dh6", mode="simulate", num=60, depth=10, limit=900, mc=False),
+           dict(scope="dhopt", mode="simulate", num=20, depth=8, limit=400, mc=False)],
     thorough=[dict(scope="dh6", mode="simulate", num=1200, depth=12, mc=False),
+              dict(scope="dhopt", mode="simulate", num=200, depth=9, limit=4000, mc=False),
               dict(scope="ign", mode="simulate", num=200, depth=8, mc=False),
               dict(scope="nest", mode="simulate", num=200, depth=9, mc=False)],
     pclauses=["P_C07_Recorded", "P_C07_Relations", "P_C07_Printed"],
@@ -459,9 +479,11 @@ INV_C17 = ["Inv_C17_Renamed", "Inv_C17_Altered", "Inv_C03_NoFalseAlarm", "Inv_C0
 generic(
     "C17", "model_checking",
     quick=[dict(scope="chain2", mode="exhaustive", maxops=6, limit=1200, mc_maxgens=3, invariants=INV_C17),
+           dict(scope="chain3", mode="exhaustive", maxops=8, maxgens=5, select="rename_chain3", mc=False),
            dict(scope="chain", mode="simulate", num=60, depth=11, limit=500, mc_maxgens=2, invariants=INV_C17),
            dict(scope="ren", mode="simulate", num=60, depth=10, limit=500, mc_maxgens=1, invariants=INV_C17)],
     thorough=[dict(scope="chain2", mode="exhaustive", maxops=7, mc_maxgens=3, invariants=INV_C17),
+              dict(scope="chain3", mode="exhaustive", maxops=9, maxgens=5, select="rename_chain3", limit=8000, mc_maxgens=5, invariants=INV_C17),
               dict(scope="chain", mode="simulate", num=1500, depth=13, mc_maxgens=3, invariants=INV_C17),
               dict(scope="ren", mode="simulate", num=1500, depth=12, mc_maxgens=2, invariants=INV_C17)],
     pclauses=["P_C17_Renamed", "P_C17_NoInternal", "P_C17_Altered", "P_C03_NoFalseAlarm", "P_C03_Removed", "P_C03_Added"],
@@ -977,8 +999,10 @@ def c20(tier, seed):
         for s in UC.SERVERS:
             for vv in (list(UC.VERSIONS) if s == "ok" else ["newer"]):
                 for tm in (list(UC.TIMINGS) if s != "hang" else ["before"]):
-                    for c in (("ok", "fail30", "fail11") if g == "ascmhl" else ("ok", "fail30")):
-                        if tier == "quick" and c != "ok" and tm == "during_join" and s not in ("ok", "hang"):
+                    for c in (("ok", "ok_v", "fail30", "fail11") if g == "ascmhl" else ("ok", "ok_v", "fail30")):
+                        if tier == "quick" and c not in ("ok", "ok_v") and tm == "during_join" and s not in ("ok", "hang"):
+                            continue
+                        if tier == "quick" and c == "ok_v" and s == "ok" and vv not in ("newer", "equal", "garbage"):
                             continue
                         cases.append((k, g, s, vv, tm, c))
                         k += 1
